@@ -142,10 +142,29 @@ SetupAfterClosed(t, h) ==
     \E n \in 1..Len(t.conns) : /\ t.conns[n].h = h
                                /\ \E i, j \in 1..Len(t.conns[n].evs) : i < j /\ t.conns[n].evs[i].k = "closed" /\ t.conns[n].evs[j].k = "setup"
 \* (the same history has a C01 face when the close came from the user taking his word back: the set-up follows the Cancel)
-KfOf(t, k) == IF /\ \/ (k[1] = "C11" /\ k[2] = "last-word-setup-although-nothing-registered")
-                    \/ (k[1] = "C01" /\ k[2] = "device-set-up-after-the-user-took-his-word-back")
-                 /\ SetupAfterClosed(t, k[3])
-              THEN {"setup-after-closed"} ELSE {}
+KfSetup(t, k) == IF /\ \/ (k[1] = "C11" /\ k[2] = "last-word-setup-although-nothing-registered")
+                       \/ (k[1] = "C01" /\ k[2] = "device-set-up-after-the-user-took-his-word-back")
+                    /\ SetupAfterClosed(t, k[3])
+                 THEN {"setup-after-closed"} ELSE {}
+\* known finding hello-ok-reported-after-the-end: UnregisterRemoteSKI / CancelPairingWithSKI close the connection while its
+\* handler sits just before the hello-ok report; the hub hears "hello ok" from a connection it no longer holds and marks
+\* the peer trusted again - after the user took his word back.  In the connection's own history hello-ok is the state it
+\* reported last before its closed report (the report was on its way to the hub when the close came) or it comes after the
+\* closed report; what follows from the regained trust (a new dial, a completed connection) carries the tag
+HelloOkAfterClosed(t, h) ==
+    \E n \in 1..Len(t.conns) :
+        /\ t.conns[n].h = h
+        /\ LET ev == t.conns[n].evs IN
+           \E i, j \in 1..Len(ev) : /\ ev[i].k = "closed" /\ ev[j].k = "rep" /\ ev[j].v = "HelloOk"
+                                    /\ (j > i \/ ~\E m \in 1..Len(ev) : j < m /\ m < i /\ ev[m].k = "rep")
+KfHello(t, k) ==
+    LET trustKeys == {<<"C10", "trusted-although-unregistered">>, <<"C10", "dial-became-a-connection-after-the-user-took-his-word-back">>,
+                      <<"C10", "dialled-connection-open-although-the-user-has-no-word-for-the-peer">>,
+                      <<"C01", "hub-says-paired-without-the-users-word">>, <<"C01", "device-set-up-after-the-user-took-his-word-back">>}
+    IN  IF (<<k[1], k[2]>> \in trustKeys /\ HelloOkAfterClosed(t, k[3]))
+           \/ (k[1] = "C10" /\ k[2] = "completed-although-not-registered-by-both-users" /\ \E h \in {"A", "B"} : HelloOkAfterClosed(t, h))
+        THEN {"hellook-after-closed"} ELSE {}
+KfOf(t, k) == KfSetup(t, k) \cup KfHello(t, k)
 Init == l = 0
 Next == /\ l < Len(Trace)
         /\ l' = l + 1
